@@ -838,6 +838,7 @@ impl BackupManager {
         let manifest_layout = read_manifest_layout(&manifest_path)?;
         let mut entries = Vec::new();
         let mut max_wal_file_id: Option<u64> = None;
+        let mut snapshot_file = None;
 
         let all_wal_segments = list_wal_segments_in_dir(&self.data_dir)?;
         let modified_since_parent = |path: &Path| -> bool {
@@ -891,6 +892,29 @@ impl BackupManager {
                     a_id.cmp(&b_id).then_with(|| a.cmp(b))
                 });
                 manifest.wal_segments.dedup();
+
+                // The shipped MANIFEST names the snapshot recovery starts from. A snapshot
+                // taken since the parent chain was archived replaces WAL segments that
+                // compaction has already removed, so it has to travel with this
+                // incremental; without it the restored MANIFEST points at a file that no
+                // backup of the chain contains.
+                if let Some(snapshot_name) = &manifest.latest_snapshot {
+                    if !self.chain_contains_snapshot(&parent_metadata, snapshot_name) {
+                        let snapshot_path = self.data_dir.join(snapshot_name);
+                        anyhow::ensure!(
+                            snapshot_path.exists(),
+                            "MANIFEST references missing snapshot '{}' in {}",
+                            snapshot_name,
+                            self.data_dir.display()
+                        );
+                        snapshot_file = Some(snapshot_name.clone());
+                        entries.push(ArchiveEntry::from_path(
+                            snapshot_name.clone(),
+                            snapshot_path,
+                        ));
+                    }
+                }
+
                 let manifest_bytes =
                     serde_json::to_vec_pretty(&manifest).context("Failed to serialize MANIFEST")?;
                 entries.push(ArchiveEntry::from_bytes("MANIFEST", manifest_bytes));
@@ -957,7 +981,7 @@ impl BackupManager {
             parent_id: Some(parent_id),
             description,
             max_wal_file_id,
-            snapshot_file: None,
+            snapshot_file,
         };
 
         // Save metadata
@@ -971,6 +995,27 @@ impl BackupManager {
         );
 
         Ok(metadata)
+    }
+
+    /// Whether `backup` or one of its ancestors archived the snapshot file `snapshot_name`.
+    fn chain_contains_snapshot(&self, backup: &BackupMetadata, snapshot_name: &str) -> bool {
+        let mut current = backup.clone();
+        loop {
+            if current.snapshot_file.as_deref() == Some(snapshot_name) {
+                return true;
+            }
+            let Some(parent_id) = current.parent_id else {
+                return false;
+            };
+            let parent_path = self.backup_dir.join(format!("backup_{}.json", parent_id));
+            let parent = fs::read_to_string(parent_path)
+                .ok()
+                .and_then(|raw| serde_json::from_str::<BackupMetadata>(&raw).ok());
+            match parent {
+                Some(parent) => current = parent,
+                None => return false,
+            }
+        }
     }
 
     /// List all backups sorted by timestamp (newest first)
